@@ -42,6 +42,8 @@ def build(spec):
                 data[c["name"]] = pd.Series([np.nan if v is None else v for v in c["values"]], dtype=float)
             else:
                 data[c["name"]] = pd.Series(c["values"], dtype="int64")
+        elif k == "int8":
+            data[c["name"]] = pd.Series(c["values"], dtype="int8")
         elif k == "Int64":  # pandas' nullable integers: a missing value is pd.NA and the column stays integer
             data[c["name"]] = pd.Series(pd.array([pd.NA if v is None else int(v) for v in c["values"]], dtype="Int64"))
         elif k == "float":
